@@ -142,7 +142,9 @@ class Matcher:
             return None
         if k == "opt":
             n = self._match(e[1], pos, "")
-            return PNode(name, t, pos, n.end if n is not None else pos, [n] if n is not None else [], "opt")
+            # (an optional reference keeps the name of what it refers to in its kind: "opt:_" is optional whitespace)
+            kind = "opt:" + e[1][1] if e[1][0] == "ref" else "opt"
+            return PNode(name, t, pos, n.end if n is not None else pos, [n] if n is not None else [], kind)
         if k in ("star", "plus"):
             cur = pos
             kids = []
